@@ -16,8 +16,10 @@ RULE = ("stateless schedule exploration of the real threads {k callers, worker s
         "answer-dispatch threads, scripted peer}: every schedule with <= d deviations from the deterministic "
         "fair scheduler (scheduling points = every lock/event/queue/barrier/sleep operation and every source "
         "line that touches a shared attribute), for k = 1..2 callers (thorough 3; d = 1 quick, d = 2 thorough for k = 1 and the eager k = 2 scenarios), every permutation of answer "
-        "arrival, with/without an unsolicited answer, peer answering eagerly or lazily; a state = one executed "
-        "schedule")
+        "arrival, with/without an unsolicited answer, peer answering eagerly or lazily; one caller that sends the same "
+        "request again once answered (peer quick / slow / sending the first answer twice); two connections (two workers) "
+        "with the same Hop-by-Hop identifier outstanding on both, answers in either order; a connection that ends right "
+        "behind its answer (d <= 1; thorough d <= 2 on the one-connection case); a state = one executed schedule")
 ASSUMPTIONS = [
     "Worker runs in-process with a stand-in manager whose Event/Queue/Lock are virtual-runtime primitives; "
     "the connection layer below the worker is a stub that hands each request to the scripted peer",
